@@ -775,6 +775,16 @@ def generate(template_path, repo, canary=False, only_items=None):
                     ft = True
                 process(os.path.join(VERIF, inc), depth + 1, ft)
                 continue
+            if head == "tables":
+                import tomllib
+                from . import tables as T
+                std = tomllib.load(open(os.path.join(VERIF, "contracts", "standards.toml"), "rb"))
+                tch, tit, tcl, trl = T.render_tables(repo, std)
+                chunks.extend(tch)
+                items_meta.extend(tit)
+                clauses_meta.extend(tcl)
+                rules.extend(trl)
+                continue
             if head.startswith("item "):
                 spec = parse_item_block(head[len("item "):], lines[1:], rel, first_line)
                 if force_trusted and " :: fn " in (" :: " + spec.selector):
